@@ -12,6 +12,7 @@ mod alpha;
 mod mc;
 mod points;
 mod toy;
+mod wire;
 mod toymodel;
 mod zgroup;
 
